@@ -41,6 +41,12 @@ def chr_sequences(r, ctx):
     i = 0
     while not ctx.expired():
         i += 1
+        if i % 4 == 0:
+            a, b, data, sa, sb = codecgen.c14_utf16_pair(r)
+            case = {"kind": "utf16pair", "data": runner.hx(data), "a": runner.hx(a), "b": runner.hx(b), "sa": sa, "sb": sb}
+            if ctx.begin(case):
+                judge_utf16_pair(a, b, data, sa, sb, ctx, case)
+            continue
         cps, parts, data = codecgen.c14_chr_sequence(r)
         case = {"kind": "chrseq", "data": runner.hx(data), "cps": cps}
         if not ctx.begin(case):
@@ -72,12 +78,32 @@ def judge_chrseq(cps, data, ctx, case):
     ctx.nontrivial(data)
 
 
+def judge_utf16_pair(a, b, data, sa, sb, ctx, case):
+    """Two wide runs separated by an odd number of NUL bytes: each is an expression of its own with its own exact span."""
+    h, _ = cc.harnesses()
+    ctx.evaluated()
+    ctx.count("utf16_pairs")
+    try:
+        root = h.scan(data)
+    except Exception as e:  # noqa: BLE001
+        ctx.count("scan_raised(C01):" + type(e).__name__)
+        return
+    got = sorted((n.start, n.end, bytes(n.value)) for n in root.children if n.obfuscation == "codec.uft-16")
+    want = [(sa, sa + 2 * len(a), a), (sb, sb + 2 * len(b), b)]
+    if got != want:
+        ctx.violation("utf16:misaligned-pair", f"two UTF-16 runs separated by {sb - sa - 2 * len(a)} NUL byte(s): reported {got}, expected {want}; input {data!r}", case)
+    mon_codec.check_c14(root, lambda k, m: ctx.violation(k, f"{m}; input {data[:100]!r}", case), ctx.counters)
+    ctx.nontrivial(data)
+
+
 def run_shard(spec, ctx):
     cc.run_shard(ID, spec, ctx, codecgen.c14_case, mon_codec.check_c14, extra=chr_sequences)
 
 
 def replay(case, ctx):
-    if case.get("kind") == "chrseq":
+    if case.get("kind") == "utf16pair":
+        judge_utf16_pair(runner.unhx(case["a"]), runner.unhx(case["b"]), runner.unhx(case["data"]), case["sa"], case["sb"], ctx, case)
+    elif case.get("kind") == "chrseq":
         judge_chrseq(case["cps"], runner.unhx(case["data"]), ctx, case)
     else:
         cc.replay(ID, case, ctx, mon_codec.check_c14)
